@@ -211,7 +211,7 @@ module Wrap = struct
                           let w0 = { !w with w_base = { script; direct; bad = false } } in
                           let c = { c_obj = nat_of_int (int_of_string (tail o)); c_meth = mt; c_args = cargs;
                                     c_bind = nat_of_int (int_of_string bind) } in
-                          let (r, w1) = wstep base_step tbl ff (cprog m cargs) w0 c in
+                          let (r, w1) = wrap_wstep base_step tbl ff (cprog m cargs) w0 c in
                           w := w1;
                           let x = if w1.w_base.bad then "mismatch"
                             else if w1.w_base.script <> [] then Printf.sprintf "extra%d" (List.length w1.w_base.script)
